@@ -26,6 +26,10 @@ def fault_enumeration(ctx):
             # the impingement query of the nucleation rate fails: the backend answers with the previous factor, or with None when there is none yet
             cfgs.append(dict(tag="faults-multi-impingement-%s-%s" % (it, "_".join(map(str, s))), multi=True, phases=[dict(name="beta", gamma=0.05)],
                              calls=[(0.3, 0.05)], iter=it, faults={"impingement": s}, cap=40))
+        # a cold-start outage: the growth / interfacial-composition query fails from the very first call until after the first nuclei exist
+        for nf in (20, 40, 120):
+            cfgs.append(dict(tag="faults-multi-growth-outage-%s-%d" % (it, nf), multi=True, phases=[dict(name="beta", gamma=0.05)],
+                             calls=[(0.3, 0.05)], iter=it, faults={"growth": list(range(nf))}, cap=60))
     with cf.ProcessPoolExecutor(max_workers=14) as ex:
         results = list(ex.map(S._one, cfgs))
     traces = [r[0] for r in results]
